@@ -188,7 +188,7 @@ def handle (line : String) : String :=
     | some g, some p => showRun (Spec.Exc.run (Spec.Exc.rulesOf g) p)
     | _, _ => "bad-op"
   | ["cli", cfg, inp] =>
-    match (if cfg == "fixed" then some Model.Cli.Cfg.fixed else if cfg == "pinned" then some Model.Cli.Cfg.pinned else none),
+    match (if cfg == "fixed" then some Model.Cli.Cfg.fixed else if cfg == "pinned" then some Model.Cli.Cfg.pinned else if cfg == "noflush" then some ⟨true, false⟩ else none),
           parseInput inp with
     | some cfg, some inp =>
       let p := Model.Cli.exitOf cfg inp
